@@ -80,9 +80,9 @@ def generate(run_seed, tier):
     derived = [d for d in DERIVED_POOL if c.random() < 0.5]
     if c.random() < 0.15:
         derived = []
-    N = c.choice([2, 3, 4, 5, 7, Rn, Rn + 1, 2 * Rn + 1,
+    N = c.choice([1, 2, 3, 4, 5, 7, Rn, Rn + 1, 2 * Rn + 1,
                   c.randint(2, 48 if tier == 'quick' else 128)])
-    N = max(2, N)
+    N = max(1, N)
     targets = [0, 1, Rn - 1, Rn, Rn + 1, 2 * Rn - 1, 2 * Rn + 1, N, N // 2]
     k = min(N, max(0, c.choice(targets)))
     frac = min(1.0, (k + 0.5) / N) if k < N else 1.0
@@ -96,7 +96,7 @@ def generate(run_seed, tier):
            'samples_u': samples_u, 'pyseed': d.randrange(2**31)}
     if c.random() < 0.3:
         # a second solution (mode) post-processed by the same objects
-        N2 = max(2, c.choice([2, 3, Rn, Rn + 1, N, c.randint(2, 24)]))
+        N2 = max(1, c.choice([1, 2, 3, Rn, Rn + 1, N, c.randint(2, 24)]))
         fam2 = d.choice(WEIGHT_FAMILIES)
         cfg['extra_solutions'] = [{
             'N': N2, 'weight_family': fam2, 'weights': gen_weights(d, N2, fam2),
